@@ -514,6 +514,9 @@ CircuitExec::StageRun CircuitExec::runStage(Circuit &c, int opIndex, const Op &o
     stat("sched_y_finished_first", r.sched.yFinishedFirst);
     stat("sched_x_finished_first", r.sched.xFinishedFirst);
     stat("sched_switches", r.sched.switches);
+    stat("sched_child_first_starts", r.sched.childFirstStarts);
+    stat("sched_creator_first_starts", r.sched.creatorFirstStarts);
+    stat("sched_start_order_timeouts", r.sched.startOrderTimeouts);
     if (r.sched.maxSwitchesInStep > res_.stats.get("sched_max_switches_in_step"))
       res_.stats.c["sched_max_switches_in_step"] = r.sched.maxSwitchesInStep;
     if (r.sched.lbSteps > 0 && op.schedMode != SM_FREE) {
